@@ -338,6 +338,8 @@ def c_dispatcher(n, one_hot=False):
     p_sel = h.prev("sel", h.v(d.sel)); p_first_stall = h.prev("fstall", bv1(z3.And(z3.Not(b(inpkt)), b(h.v(m.valid)), z3.Not(b(h.v(m.ready))))))
     h.assume(z3.Implies(b(p_first_stall), h.v(d.sel) == p_sel), "Dispatcher.sel is held while the first beat of a packet is offered and not yet accepted (mid-packet changes are free)")
     for i, s in enumerate(slaves): hold_clause(h, s, name=f"ens.hold{i}")
+    # progress for EVERY selector value (also codes no slave is attached to: such packets are drained): with all slaves ready an offered beat moves at once
+    h.respond("resp.move", z3.And(b(h.v(m.valid)), *[b(h.v(s.ready)) for s in slaves]), mf, 2)
     h.use_auto = True
     h.cover("cover.mid", z3.And(b(inpkt), mf), depth=4)
     h.functions = ["litex.soc.interconnect.packet.Dispatcher.__init__", "litex.soc.interconnect.packet.Status.__init__"]
